@@ -94,6 +94,27 @@ func c02(c *Ctx) {
 		R.Check("C02.once", R.Key("C02.once", shortFn(s.Fn), "mapupdate:vaaSignatures"), c.sitePos(p, s), "an aggregation entry is created only when none exists for the digest (an existing entry, with its submitted flag, is never replaced)", ok, "no must-hold fact `"+mapT+" == nil` at the map write", facts.Atoms(fs)...)
 	}
 	R.Floor("C02.once.entry-create", nrep, 2)
+	// the set an entry counts against is pinned together with the node's own VAA and never moved:
+	// a store to an existing entry's gs happens only in a function that also stores that entry's
+	// ourVAA (ourVAA.GuardianSetIndex names the set; membership, indices and the threshold are read
+	// from the pinned one — re-pinning later makes the two disagree)
+	ngs := 0
+	for _, s := range storesToField(p, a.vs["gs"]) {
+		if isFreshAlloc(s.Instr.(*ssa.Store).Addr) {
+			continue
+		}
+		ngs++
+		with := false
+		for _, f := range withAnon(top(s.Fn)) {
+			eachInstr(f, func(i ssa.Instruction) {
+				if st, ok := i.(*ssa.Store); ok && fieldOfAddr(st.Addr) == a.vs["ourVAA"] {
+					with = true
+				}
+			})
+		}
+		R.Check("C02.threshold-exact", R.Key("C02.threshold-exact", shortFn(s.Fn), "store:gs-pinned-with-ourVAA"), c.sitePos(p, s), "an entry's guardian set is pinned where its own VAA is stored and not changed afterwards (the set the threshold is taken from is the set ourVAA names)", with, "vaaState.gs of an existing entry is rewritten in "+shortFn(s.Fn)+", which does not store ourVAA")
+	}
+	R.Floor("C02.threshold-exact.gs-pin", ngs, 1)
 
 	// ---- threshold-exact: reuse C01's structural quorum check (op must be exactly >=) -------
 	for _, s := range sinks {
